@@ -84,9 +84,10 @@ fn check_load(oi: usize, si: usize, mode: u8, thorough: bool) -> Option<(String,
         for a in 0..=0xFFFFu16 {
             let (b, n) = (mem0[a as usize], mem1[a as usize]);
             match img.get(&a) {
-                Some(Some(v)) => if n.get() != *v || !n.is_init() { return Err(("initialized-word".into(), format!("{} ({:?}, mode {mode}): mem[x{a:04X}] = x{:04X} init={} after load, file has x{v:04X}", c.desc, STRATS[si], n.get(), n.is_init()))); },
+                Some(Some(v)) => if n.get() != *v || !n.is_init() { return Err(("initialized-word".into(), format!("{} ({:?}, mode {mode}): mem[x{a:04X}] {} after load, file has x{v:04X}", c.desc, STRATS[si], if n.get() == *v { "is not marked initialized".to_string() } else if matches!(STRATS[si], MachineInitStrategy::Unseeded) && !n.is_init() { "still holds its old (random) contents".to_string() } else { format!("= x{:04X} init={}", n.get(), n.is_init()) }))); },
                 Some(None) => if n.is_init() { return Err(("reserved-word-initialized".into(), format!("{} ({:?}, mode {mode}): reserved word mem[x{a:04X}] is marked initialized after load", c.desc, STRATS[si]))); },
-                None => if b != n { return Err(("other-word-changed".into(), format!("{} ({:?}, mode {mode}): mem[x{a:04X}] changed from {b:?} to {n:?} though the file does not define it", c.desc, STRATS[si]))); },
+                // (under the Unseeded strategy the old contents are random: they are left out so that the report is the same on every re-execution)
+                None => if b != n { return Err(("other-word-changed".into(), if matches!(STRATS[si], MachineInitStrategy::Unseeded) { format!("{} ({:?}, mode {mode}): mem[x{a:04X}] was changed by the load though the file does not define it", c.desc, STRATS[si]) } else { format!("{} ({:?}, mode {mode}): mem[x{a:04X}] changed from {b:?} to {n:?} though the file does not define it", c.desc, STRATS[si]) })); },
             }
         }
         if regs0 != regs1 { return Err(("registers-changed".into(), format!("{}: registers changed by load", c.desc))); }
